@@ -192,6 +192,60 @@ func runPrio(c *Ctx) {
 	}
 	c.R.Add("PRIO-D", "resolver|only-same-named-value-vertices", "resolver", r1.Pos, nameGuard && kindGuard,
 		"only in-edges of value vertices whose name equals the current parameter's name are discounted", fmt.Sprintf("kind-guard=%v name-equality=%v", kindGuard, nameGuard), core.LitStrings(r1.Lits)...)
+	// every same-named value vertex is discounted: besides the kind test and the name equality, no condition on the way
+	// looks at the candidate vertex (a further test on its subtype, type or value leaves a same-named input undiscounted
+	// and tied with the other inputs of its type)
+	{
+		extra := ""
+		var readsRaw func(v ssa.Value, d int) string
+		readsRaw = func(v ssa.Value, d int) string {
+			if v == nil || d > 4 {
+				return ""
+			}
+			if lf, ok := core.AsFieldLoad(p.Bind(v)); ok {
+				if ta := assertOf(lf.Base); ta != nil && core.Path(ta.X) == rawPath {
+					return lf.Field
+				}
+			}
+			switch x := v.(type) {
+			case *ssa.Call:
+				for _, a := range core.CallArgs(x.Common()) {
+					if s := readsRaw(a, d+1); s != "" {
+						return s
+					}
+				}
+			case *ssa.UnOp:
+				return readsRaw(x.X, d+1)
+			case *ssa.BinOp:
+				if s := readsRaw(x.X, d+1); s != "" {
+					return s
+				}
+				return readsRaw(x.Y, d+1)
+			}
+			return ""
+		}
+		for _, l := range r1Lits {
+			if l.Kind == "ok" {
+				continue
+			}
+			isName := false
+			if l.Kind == "cmp" && l.Op == token.EQL && l.Pol {
+				fx, okx := core.AsFieldLoad(p.Bind(l.X))
+				fy, oky := core.AsFieldLoad(p.Bind(l.Y))
+				isName = okx && oky && fx.Field == "Name" && fy.Field == "Name"
+			}
+			if isName {
+				continue
+			}
+			for _, v := range append([]ssa.Value{l.X, l.Y, l.Of}, l.Args...) {
+				if fld := readsRaw(v, 0); fld != "" {
+					extra = l.String() + " (reads the candidate's " + fld + ")"
+				}
+			}
+		}
+		c.R.Add("PRIO-D", "resolver|every-same-named-vertex-discounted", "resolver", r1.Pos, extra == "",
+			"the discount applies to every value vertex with the parameter's name: no further condition on the candidate vertex", ternary(extra == "", "kind test and name equality only", "also guarded by "+extra))
+	}
 	// every in-edge of such a vertex is discounted: the loop over its in-edges has no condition of its own and no early
 	// exit (skipping or stopping at some sources leaves ties between same-typed inputs)
 	{
